@@ -233,17 +233,27 @@ _ADDENDA = {
            "aligned grains with general volumes; every early-exit path of the average and its helpers is held to the reference on its region.",
     "C11": " Also: every data-dependent early-exit path of each function is followed once and held to the generic result on its region "
            "(rotation: the four diagonal sign matrices); a second call with exchanged values returns the exchanged result (no stale memo).",
-    "C13": " The Bingham mean axis and the finite-strain long axis are decided as eigen-equations (S v = lambda_max v, |v| = 1; library "
+    "C13": " P, G, R also for one and two grains. No function on the path writes into the default value of one of its parameters (mutable "
+           "defaults are shared objects). The Bingham mean axis and the finite-strain long axis are decided as eigen-equations (S v = lambda_max v, |v| = 1; library "
            "eigen/singular decompositions evaluated exactly at witness points, identity accepted by counted randomised testing), so any way of "
            "computing them and either sign is accepted. Also: early-exit paths of the eigenvalue computation are followed (a closed-form solver is compared with the eigenvalues of the "
            "scatter matrix at witness points); call-history independence.",
     "C15": " Also: two calls with the same seed and inputs in one process select with the same draws; with volumes summing to just under one "
            "(a rounded cumulative sum) and a variate above that sum every slot still holds an input pair.",
-    "C08": " Also: a parameter record declared with the phases in either order pairs each phase with the fraction it was declared with.",
+    "C08": " Also: a parameter record declared with the phases in either order pairs each phase with the fraction it was declared with; a listed "
+           "phase with volume fraction exactly 0 still reaches the rate kernel.",
+    "C01": " Also: a mineral whose phase is not in the assemblage of the call is refused with nothing stored or updated like any other (never a "
+           "normal return that stores no snapshot); function-form memory-order flattening.",
+    "C06": " Also: the dF/dt block equals L.F on every data-dependent early return of the right-hand side.",
+    "C07": " Also: minerals holding invalid phase or fabric ordinals raise in update_orientations and store nothing.",
+    "C11": " Also: the rotation law on the proper signed permutation matrices (rotations with exact zeros); no result buffer takes its element "
+           "type from an argument.",
+    "C17": " Also: a later snapshot of another size is rejected before any I/O event.",
     "C14": " Also: a caller-supplied pool is still running after the batched call and serves a second stack (pool typestate).",
     "C16": " Also: cells that differ from the missing marker by letter case, a prefix/suffix or doubling are data for the cell parser.",
     "C18": " Also: the terminal event keeps no running values in state that outlives the call (globals, attributes of module-level objects).",
-    "C19": " Also: a record holds exactly the values it was declared with (enumeration members in non-declaration order included).",
+    "C19": " Also: a record holds exactly the values it was declared with (enumeration members in non-declaration order included); lone "
+           "phase / fraction lists are configuration errors; no function on the parsing path writes into the default value of a parameter.",
     "C02": " Also: cells that may be infinite (a masked store of inf) are followed as selections, so a CRSS table shared between grains and "
            "modified per grain is compared with the reference on the boundary worlds of its guards.",
     "C03": " Also: skew / conserve / dead are re-decided on the path through every data-dependent early exit of the rate computation (forced for "
